@@ -11,6 +11,7 @@ import RtcModel.Lemmas.SrtpRoc
 import RtcModel.Lemmas.SrtpHeader
 import RtcModel.Lemmas.Srtp
 import RtcModel.Lemmas.SrtpTable
+import RtcModel.Lemmas.SrtpToy
 
 namespace RtcModel.Theorems.C04
 open RtcModel.Srtp RtcModel.C04 RtcModel.Generated
@@ -75,10 +76,6 @@ theorem roc_estimate_boundary_behind (roc last : Nat) (hroc : roc < 2 ^ 32) (hla
   split
   · omega
   · split <;> omega
-
-/-- the first packet of a context is taken at the context's rollover count (0 for a new context):
-a receiver that joins after the first wrap cannot know the count (RFC 3711 behaviour). -/
-theorem roc_estimate_first (roc seq : Nat) : estimateRoc roc none seq = roc := rfl
 
 /-- **update_monotone**: `update` never moves the receiver's index backwards, and with the estimate
 of an in-window packet it becomes the maximum of the old index and the packet's index. -/
@@ -164,11 +161,6 @@ theorem index_sync (I0 : Nat) (is : List Nat) (h0 : I0 < 2 ^ 16) (hw : InWindow 
   simp only [recvAll, hst]
   refine ⟨by simp [ha], r, l, hb, ?_⟩
   simpa [index48] using hf
-
-/-- the sender uses the same estimate on its own (forward-moving) sequence numbers: its rollover
-count is the true one for every send history with steps below 2^15 — an instance of `index_sync`. -/
-theorem sender_index_sync (I0 : Nat) (is : List Nat) (h0 : I0 < 2 ^ 16) (hw : InWindow I0 is) :
-    (recvAll (0, none) (I0 :: is)).1 = I0 :: is := (index_sync I0 is h0 hw).1
 
 /-- non-vacuity: three rollovers, loss, reordering across a wrap -/
 example : InWindow 65530 [65540, 65535, 98000, 130000, 129999, 162000, 194000, 226000] := by
@@ -314,6 +306,152 @@ example : Pkt.WF ⟨⟨true, 96, 65535, 7, 0xdeadbeef, [1, 2], some ⟨0xBEDE, [
   refine ⟨?_, by decide⟩
   constructor <;> simp <;> decide
 
+/-! ### Round trip across rollovers, reordering and loss — composed on the context functions -/
+
+/-- the protected packet a sender holding the keys of `cs` emits for packet `d.2` whose true 48-bit
+index is `d.1` -/
+def wireOf (S : Suite) (cs : Ctx) (d : Nat × Pkt) : Bytes :=
+  writeHdr d.2.hdr (d.2.padLen ≠ 0) ++ rtpWireBody S cs d.2 (d.1 / 65536)
+
+/-- `SrtpContext::protect` on a list of packets, in order -/
+def sendAll (S : Suite) : Ctx → List Pkt → List (Except Err Bytes)
+  | _, [] => []
+  | c, p :: ps => (c.protectRtp S p).1 :: sendAll S (c.protectRtp S p).2 ps
+
+/-- `SrtpPacket::parse` + `SrtpContext::unprotect` on a list of datagrams, in order -/
+def receiveAll (S : Suite) : Ctx → List Bytes → List (Except (ParseErr ⊕ Err) Pkt)
+  | _, [] => []
+  | c, raw :: rest =>
+    match parseHdr raw with
+    | .error e => .error (.inl e) :: receiveAll S c rest
+    | .ok (h, p, body) =>
+      (match (c.unprotectRtp S h p body).1 with | .ok q => .ok q | .error e => .error (.inr e)) ::
+        receiveAll S (c.unprotectRtp S h p body).2 rest
+
+/-- a context whose rollover state is the 48-bit index `R` -/
+def AtIndex (c : Ctx) (R : Nat) : Prop :=
+  c.roc < 2 ^ 32 ∧ ∃ l, c.last = some l ∧ l < 2 ^ 16 ∧ index48 c.roc l = R
+
+/-- genuine traffic: well-formed packets whose sequence number is the low half of their true index -/
+def Genuine (d : Nat × Pkt) : Prop := d.2.WF ∧ d.2.hdr.seq = d.1 % 2 ^ 16
+
+theorem in_window_step (c : Ctx) (R I : Nat) (hc : AtIndex c R)
+    (h1 : (R : Int) - I < 2 ^ 15) (h2 : (I : Int) - R < 2 ^ 15) (h3 : I < 2 ^ 48) :
+    c.estimate (I % 2 ^ 16) = I / 2 ^ 16 ∧ AtIndex (c.updated (I % 2 ^ 16) (I / 2 ^ 16)) (max R I) := by
+  obtain ⟨hroc, l, hl, hll, hR⟩ := hc
+  subst hR
+  have he := roc_estimate_correct c.roc l I hroc hll h3 h1 h2
+  refine ⟨by simp only [Ctx.estimate, hl]; exact he, ?_⟩
+  simp only [Nat.reducePow] at *
+  have hdiv : I / 65536 < 4294967296 := by omega
+  have hmod : I % 65536 < 65536 := Nat.mod_lt _ (by decide)
+  simp only [AtIndex, Ctx.updated, hl, updateRoc_some, index48, Nat.reducePow]
+  split
+  · exact ⟨hdiv, I % 65536, rfl, hmod, by simp only [index48] at *; omega⟩
+  · exact ⟨hroc, l, rfl, hll, by simp only [index48] at *; omega⟩
+
+theorem rtpWireBody_keys (S : Suite) (a b : Ctx) (p : Pkt) (roc : Nat)
+    (hs : a.ssrc = b.ssrc) (hp : a.profile = b.profile) (hk : a.rtp = b.rtp) :
+    rtpWireBody S a p roc = rtpWireBody S b p roc := by
+  simp [rtpWireBody, cmBody, rtpTag, Ctx.encrypts, hs, hp, hk]
+
+/-- sender side of the composition -/
+theorem sender_history (S : Suite) (sent : List (Nat × Pkt)) (cs c : Ctx) (R : Nat)
+    (hs : c.ssrc = cs.ssrc) (hp : c.profile = cs.profile) (hk : c.rtp = cs.rtp)
+    (hc : AtIndex c R) (hg : ∀ d ∈ sent, Genuine d) (hw : InWindow R (sent.map (·.1))) :
+    sendAll S c (sent.map (·.2)) = sent.map (fun d => .ok (wireOf S cs d)) := by
+  induction sent generalizing c R with
+  | nil => rfl
+  | cons d rest ih =>
+    obtain ⟨⟨h1, h2, h3⟩, hrest⟩ := hw
+    obtain ⟨wf, hseq⟩ := hg d (by simp)
+    obtain ⟨he, hc'⟩ := in_window_step c R d.1 hc h1 h2 h3
+    have hprot := protectRtp_eq S c d.2 (validHdr_of_WF _ wf.hdr)
+    rw [hseq, he] at hprot
+    simp only [List.map_cons, sendAll, hprot, wireOf, Nat.reducePow]
+    rw [rtpWireBody_keys S c cs d.2 _ hs hp hk]
+    congr 1
+    exact ih _ _ hs hp hk (by simpa [Nat.reducePow] using hc') (fun x hx => hg x (by simp [hx])) hrest
+
+/-- receiver side: any delivery order / loss / duplication inside the window -/
+theorem receiver_history (S : Suite) (deliveries : List (Nat × Pkt)) (cs c : Ctx) (R : Nat)
+    (hs : c.ssrc = cs.ssrc) (hp : c.profile = cs.profile) (hk : c.rtp = cs.rtp)
+    (hc : AtIndex c R) (hg : ∀ d ∈ deliveries, Genuine d) (hw : InWindow R (deliveries.map (·.1))) :
+    receiveAll S c (deliveries.map (wireOf S cs)) = deliveries.map (fun d => .ok d.2) := by
+  induction deliveries generalizing c R with
+  | nil => rfl
+  | cons d rest ih =>
+    obtain ⟨⟨h1, h2, h3⟩, hrest⟩ := hw
+    obtain ⟨wf, hseq⟩ := hg d (by simp)
+    obtain ⟨he, hc'⟩ := in_window_step c R d.1 hc h1 h2 h3
+    have hun := unprotect_wireBody S cs c d.2 wf hs hp hk
+    rw [hseq, he] at hun
+    simp only [List.map_cons, receiveAll, wireOf, parseHdr_writeHdr _ _ _ wf.hdr, Nat.reducePow] at hun ⊢
+    rw [hun]
+    simp only
+    congr 1
+    exact ih _ _ hs hp hk (by simpa [Nat.reducePow, hseq] using hc') (fun x hx => hg x (by simp [hx])) hrest
+
+
+theorem fresh_step (c : Ctx) (I : Nat) (hroc : c.roc = 0) (hlast : c.last = none) (hI : I < 2 ^ 16) :
+    c.estimate (I % 2 ^ 16) = I / 2 ^ 16 ∧ AtIndex (c.updated (I % 2 ^ 16) (I / 2 ^ 16)) I := by
+  simp only [Nat.reducePow] at hI
+  have hm : I % 65536 = I := Nat.mod_eq_of_lt hI
+  have hd : I / 65536 = 0 := by omega
+  simp only [Ctx.estimate, hlast, hroc, estimateRoc_none, AtIndex, Ctx.updated, updateRoc_none, Nat.reducePow, hm, hd]
+  exact ⟨trivial, by decide, I, rfl, hI, by simp [index48]⟩
+
+/-- **reorder_loss_roundtrip** — the composed statement the property asks for, on `SrtpContext::protect`
+/ `SrtpPacket::parse` / `SrtpContext::unprotect` themselves: a sender context at index `Rs` protects any
+send history `sent` (true indices within ±2^15 of its highest so far — in particular any forward-moving
+stream, through any number of rollovers); a paired receiver context at index `Rr` is handed ANY list of
+those packets — any subset (loss), any order (reordering), repetitions — in which each arrival is within
+±2^15 of the highest index it has accepted so far. Then the sender emits exactly `wireOf` each packet,
+and the receiver returns exactly the original packet for every delivery. No bound on either length. -/
+theorem reorder_loss_roundtrip (S : Suite) (cs cr : Ctx) (hpair : Paired cs cr) (Rs Rr : Nat)
+    (hcs : AtIndex cs Rs) (hcr : AtIndex cr Rr)
+    (sent deliveries : List (Nat × Pkt)) (hg : ∀ d ∈ sent, Genuine d)
+    (hws : InWindow Rs (sent.map (·.1)))
+    (hsub : ∀ d ∈ deliveries, d ∈ sent) (hwr : InWindow Rr (deliveries.map (·.1))) :
+    sendAll S cs (sent.map (·.2)) = sent.map (fun d => .ok (wireOf S cs d)) ∧
+    (∀ d ∈ deliveries, wireOf S cs d ∈ sent.map (wireOf S cs)) ∧
+    receiveAll S cr (deliveries.map (wireOf S cs)) = deliveries.map (fun d => .ok d.2) :=
+  ⟨sender_history S sent cs cs Rs rfl rfl rfl hcs hg hws,
+   fun d hd => List.mem_map.mpr ⟨d, hsub d hd, rfl⟩,
+   receiver_history S deliveries cs cr Rr hpair.ssrc hpair.profile hpair.rtp hcr
+     (fun d hd => hg d (hsub d hd)) hwr⟩
+
+/-- the same from two NEW contexts (rollover counter 0, nothing seen): the first packet sent and the
+first packet delivered are from the first sequence cycle. -/
+theorem reorder_loss_roundtrip_fresh (S : Suite) (cs cr : Ctx) (hpair : Paired cs cr)
+    (hs0 : cs.roc = 0 ∧ cs.last = none) (hr0 : cr.roc = 0 ∧ cr.last = none)
+    (d0 e0 : Nat × Pkt) (sent deliveries : List (Nat × Pkt))
+    (hd0 : d0.1 < 2 ^ 16) (he0 : e0.1 < 2 ^ 16)
+    (hg : ∀ d ∈ d0 :: sent, Genuine d) (hws : InWindow d0.1 (sent.map (·.1)))
+    (hsub : ∀ d ∈ e0 :: deliveries, d ∈ d0 :: sent) (hwr : InWindow e0.1 (deliveries.map (·.1))) :
+    sendAll S cs ((d0 :: sent).map (·.2)) = (d0 :: sent).map (fun d => .ok (wireOf S cs d)) ∧
+    receiveAll S cr ((e0 :: deliveries).map (wireOf S cs)) = (e0 :: deliveries).map (fun d => .ok d.2) := by
+  constructor
+  · obtain ⟨wf, hseq⟩ := hg d0 (by simp)
+    obtain ⟨he, hc'⟩ := fresh_step cs d0.1 hs0.1 hs0.2 hd0
+    have hprot := protectRtp_eq S cs d0.2 (validHdr_of_WF _ wf.hdr)
+    rw [hseq, he] at hprot
+    simp only [List.map_cons, sendAll, hprot, wireOf, Nat.reducePow]
+    congr 1
+    exact sender_history S sent cs _ d0.1 rfl rfl rfl (by simpa [Nat.reducePow] using hc')
+      (fun x hx => hg x (by simp [hx])) hws
+  · obtain ⟨wf, hseq⟩ := hg e0 (hsub e0 (by simp))
+    obtain ⟨he, hc'⟩ := fresh_step cr e0.1 hr0.1 hr0.2 he0
+    have hun := unprotect_wireBody S cs cr e0.2 wf hpair.ssrc hpair.profile hpair.rtp
+    rw [hseq, he] at hun
+    simp only [List.map_cons, receiveAll, wireOf, parseHdr_writeHdr _ _ _ wf.hdr, Nat.reducePow] at hun ⊢
+    rw [hun]
+    simp only
+    congr 1
+    exact receiver_history S deliveries cs _ e0.1 hpair.ssrc hpair.profile hpair.rtp
+      (by simpa [Nat.reducePow, hseq] using hc')
+      (fun x hx => hg x (hsub x (by simp [hx]))) hwr
+
 /-! ### Round trip through the session API, any number of SSRCs -/
 
 /-- a sender session and the receiver session of the same direction: same profile and usable keying
@@ -409,5 +547,88 @@ theorem session_stream_roundtrip (S : Suite) (k now : Nat) (ps : List Pkt) (s r 
 example (S : Suite) (mk ms : Bytes) (h1 : srtpKeyLen ≤ mk.length) (h2 : Profile.gcm.saltLen ≤ ms.length) :
     Linked S (Sess.new .gcm mk ms mk ms) (Sess.new .gcm mk ms mk ms) :=
   ⟨rfl, rfl, rfl, h1, h2, fun _ h => by simp [Sess.new] at h, fun _ h => by simp [Sess.new] at h⟩
+
+/-! ### Many SSRCs and time: the full statement is FALSE on the current code (known finding) -/
+
+/-- a send/delivery schedule through a sender and a receiver session: at time `now` the sender
+protects `p`; if `deliver` the receiver gets the packet at once (else it is lost). `true` iff every
+protect succeeded and every delivered packet was returned exactly. -/
+def allDelivered (S : Suite) : Sess → Sess → List (Nat × Bool × Pkt) → Bool
+  | _, _, [] => true
+  | s, r, (now, deliver, p) :: rest =>
+    match (s.protectRtp S now p).1 with
+    | .error _ => false
+    | .ok wire =>
+      if deliver then
+        (match (r.receiveRtp S now wire).1 with | .ok q => q == p | .error _ => false) &&
+          allDelivered S (s.protectRtp S now p).2 (r.receiveRtp S now wire).2 rest
+      else allDelivered S (s.protectRtp S now p).2 r rest
+
+/-- FULL STATEMENT of "round trip for any number of SSRCs" at the session API: linked sessions that
+agree on every SSRC's rollover state return every delivered packet of every in-order schedule
+(any SSRCs, any times, any losses). -/
+def ManySsrcRoundtrip (S : Suite) : Prop :=
+  ∀ (s r : Sess) (sched : List (Nat × Bool × Pkt)), Linked S s r → (∀ k, rocOf s.tx k = rocOf r.rx k) →
+    (∀ x ∈ sched, x.2.2.WF) → allDelivered S s r sched = true
+
+namespace Witness
+def key16 : Bytes := List.replicate 16 1
+def salt14 : Bytes := List.replicate 14 2
+def pkt (ssrc seq : Nat) : Pkt := ⟨⟨false, 96, seq, 0, ssrc, [], none⟩, [1, 2, 3], 0⟩
+def s0 : Sess := Sess.new .cm80 key16 salt14 key16 salt14
+/-- 33 streams send one packet each; stream 7 sends 65000, 65500, 100, 200 (rollover counter 1) -/
+def warmup : List (Nat × Bool × Pkt) :=
+  (List.range 33).map (fun k => (0, true, pkt (1000 + k) 5)) ++
+  [(0, true, pkt 7 65000), (0, true, pkt 7 65500), (0, true, pkt 7 100), (0, true, pkt 7 200)]
+/-- 61 s later the sender sends a packet of another stream (lost), then stream 7 resumes -/
+def txEvicted : List (Nat × Bool × Pkt) := warmup ++ [(61, false, pkt 1000 6), (61, true, pkt 7 300)]
+/-- the receiver's context of stream 7 is 61 s old (the sender used it 30 s ago, packet lost);
+a delivered packet of another stream evicts it, then stream 7 resumes -/
+def rxEvicted : List (Nat × Bool × Pkt) :=
+  warmup ++ [(31, false, pkt 7 250), (61, true, pkt 1000 6), (61, true, pkt 7 300)]
+/-- the same traffic without the idle time -/
+def noIdle : List (Nat × Bool × Pkt) := warmup ++ [(59, false, pkt 1000 6), (59, true, pkt 7 300)]
+
+private theorem pkt_WF (ssrc seq : Nat) (h1 : ssrc < 4294967296) (h2 : seq < 65536) : (pkt ssrc seq).WF := by
+  refine ⟨⟨by simp [pkt], h2, by simp [pkt], h1, by simp [pkt], by simp [pkt], ?_, ?_, ?_⟩, by simp [pkt]⟩ <;>
+    (intro e he; simp [pkt] at he)
+
+private theorem linked0 : Linked toySuite s0 s0 :=
+  ⟨rfl, rfl, rfl, by decide, by decide, fun _ h => by simp [s0, Sess.new] at h, fun _ h => by simp [s0, Sess.new] at h⟩
+
+private theorem wf_of_mem {l : List (Nat × Bool × Pkt)} {x : Nat × Bool × Pkt}
+    (hl : ∀ y ∈ l, ∃ a b, y.2.2 = pkt a b ∧ a < 4294967296 ∧ b < 65536) (hx : x ∈ l) : x.2.2.WF := by
+  obtain ⟨a, b, h, ha, hb⟩ := hl x hx; rw [h]; exact pkt_WF a b ha hb
+
+private theorem warmup_shape : ∀ y ∈ warmup, ∃ a b, y.2.2 = pkt a b ∧ a < 4294967296 ∧ b < 65536 := by
+  intro y hy
+  simp only [warmup, List.mem_append, List.mem_map, List.mem_range, List.mem_cons, List.not_mem_nil, or_false] at hy
+  rcases hy with ⟨k, hk, rfl⟩ | rfl | rfl | rfl | rfl
+  · exact ⟨1000 + k, 5, rfl, by omega, by decide⟩
+  all_goals exact ⟨_, _, rfl, by decide, by decide⟩
+end Witness
+
+open Witness in
+set_option maxRecDepth 1000000 in
+/-- **many_ssrc_roundtrip_witness** (KNOWN FINDING `roundtrip:rtp-genuine-rejected:<profile>:tx-evicted`,
+`…:rx-evicted`): with more than `SSRC_CONTEXT_HIGH_WATERMARK` contexts, a stream whose rollover counter
+is 1 and that pauses for `SSRC_INACTIVITY_EVICT` is evicted from the sender's (resp. the receiver's)
+table as soon as ANOTHER stream is used; its rollover counter restarts at 0 on that side only and its
+next genuine packet fails authentication. The full statement is false — concrete schedule, both
+directions; without the idle time the same traffic goes through. Replayed on the real code by the
+harness cases `tx-evicted` / `rx-evicted`. -/
+theorem many_ssrc_roundtrip_witness : ¬ (∀ S, ManySsrcRoundtrip S) ∧
+    allDelivered toySuite s0 s0 txEvicted = false ∧ allDelivered toySuite s0 s0 rxEvicted = false ∧
+    allDelivered toySuite s0 s0 noIdle = true := by
+  have h1 : allDelivered toySuite s0 s0 txEvicted = false := by decide
+  refine ⟨fun h => ?_, h1, by decide, by decide⟩
+  have := h toySuite s0 s0 txEvicted linked0 (fun _ => rfl) (fun x hx => by
+    simp only [txEvicted, List.mem_append, List.mem_cons, List.not_mem_nil, or_false] at hx
+    rcases hx with hx | rfl | rfl
+    · exact wf_of_mem warmup_shape hx
+    · exact pkt_WF _ _ (by decide) (by decide)
+    · exact pkt_WF _ _ (by decide) (by decide))
+  rw [h1] at this
+  exact absurd this (by decide)
 
 end RtcModel.Theorems.C04
